@@ -238,14 +238,14 @@ def build_recording(tier):
     work = os.path.join(sc, "work")
     # (cfg, simulate-walks, sample-size, extra pipe-run flags)
     V0, A0 = ["--validate=false"], ["--alt=false"]
-    plan = [("Pipeline_c04.cfg", None, 800 if thorough else 72, V0), ("Pipeline_c01sim.cfg", 800 if thorough else 30, None, V0), ("Pipeline_c01core.cfg", None, 10 ** 6 if thorough else 36, V0),
-            ("Pipeline_sim.cfg", 800 if thorough else 30, None, V0), ("Pipeline_c06single.cfg", None, 10 ** 6 if thorough else 70, V0), ("Pipeline_c06grp.cfg", None, 10 ** 6 if thorough else 16, V0), ("Pipeline_c06sim.cfg", 1500 if thorough else 20, None, V0),
-            ("Pipeline_c07sim.cfg", 1500 if thorough else 36, None, V0), ("Pipeline_c11rules.cfg", None, 10 ** 6, V0), ("Pipeline_c11rulesp.cfg", None, 10 ** 6, V0), ("Pipeline_c10core.cfg", None, 10 ** 6, A0), ("Pipeline_c10.cfg", None, 1000 if thorough else 24, A0), ("Pipeline_c10mask.cfg", None, 700 if thorough else 24, A0),
+    plan = [("Pipeline_c04.cfg", None, 500 if thorough else 72, V0), ("Pipeline_c01sim.cfg", 500 if thorough else 30, None, V0), ("Pipeline_c01core.cfg", None, 10 ** 6 if thorough else 36, V0),
+            ("Pipeline_sim.cfg", 500 if thorough else 30, None, V0), ("Pipeline_c06single.cfg", None, 10 ** 6 if thorough else 70, V0), ("Pipeline_c06grp.cfg", None, 10 ** 6 if thorough else 16, V0), ("Pipeline_c06sim.cfg", 700 if thorough else 20, None, V0),
+            ("Pipeline_c07sim.cfg", 700 if thorough else 36, None, V0), ("Pipeline_c11rules.cfg", None, 10 ** 6, V0), ("Pipeline_c11rulesp.cfg", None, 10 ** 6, V0), ("Pipeline_c10core.cfg", None, 10 ** 6, A0), ("Pipeline_c10.cfg", None, 1000 if thorough else 24, A0), ("Pipeline_c10mask.cfg", None, 400 if thorough else 24, A0),
             ("Pipeline_c10maskcore.cfg", None, 10 ** 6, A0), ("Pipeline_c10enf.cfg", None, 10 ** 6, A0),
-            ("Pipeline_c13sim.cfg", 400 if thorough else 24, None, V0 + A0),
-            ("Pipeline_c14sim.cfg", 2000 if thorough else 30, None, V0), ("Pipeline_c14types.cfg", None, 10 ** 6, V0), ("Pipeline_c14generics.cfg", None, 10 ** 6, V0)]
+            ("Pipeline_c13sim.cfg", 300 if thorough else 24, None, V0 + A0),
+            ("Pipeline_c14sim.cfg", 900 if thorough else 30, None, V0), ("Pipeline_c14types.cfg", None, 10 ** 6, V0), ("Pipeline_c14generics.cfg", None, 10 ** 6, V0)]
     if thorough:
-        plan.append(("Pipeline_c10sim.cfg", None, 1500, A0))     # every double perturbation, enumerated; a stratified sample is run
+        plan.append(("Pipeline_c10sim.cfg", None, 800, A0))     # every double perturbation, enumerated; a stratified sample is run
     import concurrent.futures
     conf = {"events": 0, "runs": 0, "rejected": []}
 
@@ -303,7 +303,7 @@ def build_recording(tier):
     rng.shuffle(ids)
     rng.shuffle(twins)
     rng.shuffle(spreads)
-    n13 = 200 if thorough else 12
+    n13 = 120 if thorough else 12
     twins = twins[:n13 // 3]
     spreads = spreads[:n13 // 3]
     ids = set(twins + spreads + ids[:n13 - len(twins) - len(spreads)])
